@@ -243,6 +243,88 @@ Proof.
 Qed.
 End Tie.
 
+(** ------------------------------------------------------------------ regexps that distill to ONE exact literal
+    (the case in which a Symbol{Regexp} becomes a symbolSubstrMatchTree): on ANY text, "the regexp matches somewhere"
+    is "the literal occurs" *)
+Fixpoint single_lit (r : rx) : option (list N * bool) :=
+  match r with
+  | RLit s f => Some (s, f)
+  | RCapture r' => single_lit r'
+  | RPlus r' => single_lit r'
+  | RRepeat mn r' => if mn =? 1 then single_lit r' else None
+  | RConcat [r'] => single_lit r'
+  | _ => None
+  end.
+
+Section Single.
+Variable tolower : N -> N.
+Variable orbit : N -> list N.
+Variable c : corpus.
+Variable freq : bool -> bool -> tri -> N.
+Variable cs : bool.
+
+Lemma distill_single : forall fn r s sl, distill orbit c freq cs fn r = (MTsubstr s, true, sl) ->
+  exists p f, single_lit r = Some (p, f) /\ sl_pat s = p /\ sl_cs s = (negb f && cs) /\ 1 <= length p.
+Proof.
+  intros fn. induction r using rx_ind'; intros s0 sl Hd; cbn [distill single_lit] in *.
+  - destruct (3 <=? byte_len s) eqn:E3; [|discriminate].
+    inversion Hd as [[H1 H2]]. destruct (new_substr_shape orbit c freq s (negb f && cs) fn) as [[sk [E _]]|[s1 [E [A [B _]]]]].
+    + rewrite E in H1. discriminate.
+    + rewrite E in H1. inversion H1; subst s1. exists s, f. repeat split; auto.
+      destruct s; [simpl in E3; discriminate|simpl; lia].
+  - eauto.
+  - eauto.
+  - destruct (mn =? 1) eqn:E1; [eauto|]. destruct (1 <? mn); [|discriminate].
+    destruct (distill orbit c freq cs fn r) as [[m e] l]. discriminate.
+  - destruct rs as [|x [|y rs]].
+    + simpl in Hd. discriminate.
+    + inversion H as [|? ? Hx _]; subst. cbn [map length Nat.ltb Nat.leb forallb filter] in Hd.
+      destruct (distill orbit c freq cs fn x) as [[q e] l] eqn:Ex. cbn [fst snd] in Hd.
+      destruct (is_brute q) eqn:Eb; cbn [negb] in Hd.
+      * inversion Hd.
+      * rewrite !andb_true_r in Hd. inversion Hd; subst. apply (Hx s0 sl). reflexivity.
+    + exfalso. cbn [map length Nat.ltb Nat.leb] in Hd.
+      destruct (filter _ _) as [|q1 [|q2 qr]]; cbn [fst snd] in Hd; try discriminate.
+      destruct (forallb _ _); discriminate.
+  - destruct (find is_brute _) as [q|] eqn:Ef.
+    + apply find_some in Ef. destruct Ef as [_ Eb]. inversion Hd; subst. simpl in Eb. discriminate.
+    + destruct (map _ (map _ rs)); discriminate.
+  - discriminate.
+  - discriminate.
+  - discriminate.
+Qed.
+
+Variable t : list N.
+Notation rm := (rm tolower cs t).
+Notation rmchain := (rmchain tolower cs t).
+
+Lemma single_lit_rm : forall r p f, single_lit r = Some (p, f) -> 1 <= length p ->
+  ((exists i j, rm r i j) <-> contains tolower (negb f && cs) p t = true).
+Proof.
+  induction r using rx_ind'; intros p f0 Hs Hp; cbn [single_lit] in Hs.
+  - inversion Hs; subst. unfold contains. rewrite existsb_exists. split.
+    + intros [i [j Hr]]. apply rm_lit_inv in Hr. destruct Hr as [_ [Ho Hl]]. exists i. split; [apply in_seq; lia|exact Ho].
+    + intros [i [_ Ho]]. exists i, (i + length p). assert (Hp0 : 0 < length p) by lia. constructor; [exact Ho|]. apply (occurs_at_len tolower _ _ _ _ Hp0 Ho).
+  - rewrite <- (IHr p f0 Hs Hp). split; intros [i [j Hr]]; exists i, j; [inversion Hr; subst; assumption | constructor; exact Hr].
+  - rewrite <- (IHr p f0 Hs Hp). split.
+    + intros [i [j Hr]]. remember (RPlus r) as q eqn:Eq. induction Hr; inversion Eq; subst; eauto.
+    + intros [i [j Hr]]. exists i, j. apply rm_plus1. exact Hr.
+  - destruct (mn =? 1) eqn:E1; [|discriminate]. apply Nat.eqb_eq in E1. subst mn.
+    rewrite <- (IHr p f0 Hs Hp). split.
+    + intros [i [j Hr]]. inversion Hr; subst. destruct cnt as [|cnt]; [lia|].
+      match goal with Hc : context [repeat r (S cnt)] |- _ => simpl in Hc; apply rmchain_cons_inv in Hc; destruct Hc as [m [Hm1 _]] end.
+      eauto.
+    + intros [i [j Hr]]. exists i, j. apply (rm_rep tolower cs t 1 r 1); [lia|]. simpl. econstructor; [exact Hr|].
+      constructor. pose proof (rm_bounds tolower cs t r i j Hr). lia.
+  - destruct rs as [|x [|y rs]]; try discriminate. inversion H as [|? ? Hx _]; subst.
+    rewrite <- (Hx p f0 Hs Hp). split.
+    + intros [i [j Hr]]. apply rm_cat_inv in Hr. apply rmchain_cons_inv in Hr. destruct Hr as [m [Hm1 _]]. eauto.
+    + intros [i [j Hr]]. exists i, j. constructor. econstructor; [exact Hr|]. constructor.
+      pose proof (rm_bounds tolower cs t x i j Hr). lia.
+  - discriminate. - discriminate. - discriminate. - discriminate.
+Qed.
+End Single.
+
 (** ------------------------------------------------------------------ the top-level theorem against Model/Regex.v *)
 Section TopTie.
 Variable re_match : N -> list N -> bool.
@@ -258,7 +340,8 @@ Definition matches_somewhere (cs : bool) (r : rx) (t : list N) : bool :=
 
 (** THE ENGINE ASSUMPTION, against ONE semantics: on every regexp atom (which must lie in the exactly represented
     fragment) the engine's verdict on every name / content is [matches_somewhere]; lower-casing and simple folding agree
-    on (runes of the atom's literals) x (runes of the texts).  Symbol atoms: as in [engine_ok]. *)
+    on (runes of the atom's literals) x (runes of the texts).  Symbol{Regexp} atoms: the same, with the TEXT OF EVERY SYMBOL
+    SECTION in place of name / content (and well-formed sections); Symbol{Substring}: well-formed sections. *)
 Fixpoint engine_is_ends (q : Q) : Prop :=
   match q with
   | QRegexp rid r tf cs fn _ =>
@@ -267,7 +350,14 @@ Fixpoint engine_is_ends (q : Q) : Prop :=
         re_match rid (text_of c fn k) = matches_somewhere cs r (text_of c fn k) /\
         (forall a b, In a (lit_runes r) -> In b (text_of c fn k) -> N.eqb (tolower a) (tolower b) = RX.fold_eq orbit2 true a b)
   | QSymSubstr p cs => re_ok re_match tolower orbit c freq (QSymSubstr p cs)
-  | QSymRegexp rid r tf cs => re_ok re_match tolower orbit c freq (QSymRegexp rid r tf cs)
+  | QSymRegexp rid r tf cs =>
+      no_other r = true /\
+      forall k, k < ndocs c ->
+        secs_ok (length (text_of c false k)) (d_secs (doc_at c k)) /\
+        forall sec, In sec (d_secs (doc_at c k)) ->
+          re_match rid (slice (text_of c false k) sec) = matches_somewhere cs r (slice (text_of c false k) sec) /\
+          (forall a b, In a (lit_runes r) -> In b (slice (text_of c false k) sec) ->
+                       N.eqb (tolower a) (tolower b) = RX.fold_eq orbit2 true a b)
   | QAnd l => (fix all (l : list Q) : Prop := match l with [] => True | x :: r => engine_is_ends x /\ all r end) l
   | QOr l => (fix all (l : list Q) : Prop := match l with [] => True | x :: r => engine_is_ends x /\ all r end) l
   | QNot q' => engine_is_ends q'
@@ -303,6 +393,13 @@ Proof.
     apply RegexEnds.ends_spec in Hm. unfold RX.matches_at. destruct (RX.ends orbit2 (emb cs r) t i); [destruct Hm|reflexivity].
 Qed.
 
+Lemma In_firstn' : forall (A : Type) n (l : list A) x, In x (firstn n l) -> In x l.
+Proof. induction n as [|n IH]; intros [|y l] x H; simpl in *; try contradiction. destruct H as [H|H]; [left; exact H|right; apply IH; exact H]. Qed.
+Lemma In_skipn' : forall (A : Type) n (l : list A) x, In x (skipn n l) -> In x l.
+Proof. induction n as [|n IH]; intros [|y l] x H; simpl in *; try contradiction; auto. Qed.
+Lemma In_slice : forall t sec b, In b (slice t sec) -> In b t.
+Proof. intros t sec b H. unfold slice in H. apply In_firstn' in H. apply In_skipn' in H. exact H. Qed.
+
 Theorem engine_is_ends_ok : forall q, engine_is_ends q -> engine_ok re_match tolower orbit c freq q.
 Proof.
   induction q using Q_ind'; intro He.
@@ -310,6 +407,17 @@ Proof.
   - simpl in He. apply engine_is_ends_list in He. apply (proj2 (engine_ok_list _ _ _ _ _ _)). rewrite Forall_forall in *. auto.
   - simpl in *. auto. - simpl in *. auto. - simpl in *. auto. - simpl in *. auto.
   - destruct q; try contradiction; try exact I; try exact He.
+    2:{ (* Symbol{Regexp}: the per-section clause of re_ok is DERIVED from the regexp semantics *)
+      cbn [engine_is_ends] in He. destruct He as [Hno He]. cbn [engine_ok re_ok]. intros k Hk. cbv zeta.
+      destruct (He k Hk) as [Hs Hsec]. split; [exact Hs|].
+      destruct (distill orbit c freq cs false r) as [[sub isEq] sl] eqn:Ed.
+      destruct isEq; [|exact I]. destruct sub; try exact I.
+      intros sec Hin. destruct (Hsec sec Hin) as [Hre Hf].
+      destruct (distill_single orbit c freq cs false r s sl Ed) as [p [f [Hsl [Hp [Hc Hlen]]]]].
+      rewrite Hp, Hc, Hre. apply Bool.eq_iff_eq_true.
+      rewrite <- (single_lit_rm tolower cs (slice (text_of c false k) sec) r p f Hsl Hlen).
+      symmetry. apply (somewhere_rm cs r (slice (text_of c false k) sec) Hno Hf).
+      intros b Hb. apply (Hvalid false k). eapply In_slice; eauto. }
     cbn [engine_is_ends] in He. destruct He as [Hne [Hno He]]. cbn [engine_ok]. split; [exact Hne|].
     intros k Hk. destruct (He k Hk) as [Hre Hf].
     pose proof (somewhere_rm cs r (text_of c fn k) Hno Hf (Hvalid fn k)) as Hs. rewrite Hre. split.
